@@ -1900,7 +1900,9 @@ func (g *c08Gen) directedStreams() []string {
 	var out []string
 	known := w.addrs[0].String()
 	unknown := b58n(zz.NewRNG(77), 32)
-	starts := []uint64{w.eps[0].G.Blocks[2].Slot, w.eps[1].G.Blocks[2].Slot}
+	// deep enough inside the epoch that `end < start` by a few slots stays in the same epoch
+	last := func(le *loadedEpoch) uint64 { return le.G.Blocks[len(le.G.Blocks)-1].Slot }
+	starts := []uint64{last(w.eps[0]), last(w.eps[1])}
 	type endShape struct {
 		name string
 		end  func(start uint64) string
@@ -1909,6 +1911,7 @@ func (g *c08Gen) directedStreams() []string {
 		{"absent", func(uint64) string { return "-" }},
 		{"equal", func(s uint64) string { return fmt.Sprint(s) }},
 		{"minus-1", func(s uint64) string { return fmt.Sprint(s - 1) }},
+		{"minus-2", func(s uint64) string { return fmt.Sprint(s - 2) }},
 		{"minus-5", func(s uint64) string { return fmt.Sprint(s - 5) }},
 		{"minus-epoch", func(s uint64) string { return fmt.Sprint(s - 432000) }},
 		{"to-zero", func(s uint64) string { return "0" }},
